@@ -740,6 +740,13 @@ class Interp:
                     return
             except KeyError:
                 pass
+            # data abstraction chosen by a contract module: the value stored in a field is replaced by its abstract view (e.g. a fresh
+            # empty list[User] by the empty name set) so that later operations on the field stay inside the abstraction
+            ab = getattr(self, 'attr_abstractions', None)
+            if ab:
+                fn = ab.get((obj.cls.name, name))
+                if fn is not None:
+                    value = fn(self, value)
             obj.attrs[name] = value
             return
         if isinstance(obj, ClassVal):
